@@ -66,7 +66,7 @@ func TestC05(t *testing.T) {
 							}
 							if k%97 == 0 {
 								plain := append([]byte(nil), buf...)
-								for _, form := range [][2]string{{" ", ""}, {"\t\n", " "}, {"0", ""}, {"", "0"}, {"", ".0"}, {"", "e0"}, {"", "."}, {"", "E"}} {
+								for _, form := range [][2]string{{" ", ""}, {"\t\n", " "}, {"   ", ""}, {"        ", ""}, {"\n\n\n\n\n\n\n\n\n\n\n\n\n", ""}, {"                 ", ""}, {"                  ", ""}, {"                   ", ","}, {"                                ", ""}, {"0", ""}, {"", "0"}, {"", ".0"}, {"", "e0"}, {"", "."}, {"", "E"}} {
 									buf = append(append(append(buf[:0], form[0]...), plain...), form[1]...)
 									if !run("window.form", buf) {
 										break win
